@@ -214,7 +214,7 @@ func (x *Exec) load(fr *Frame, st *State, p Val, site string) Val {
 		switch p.Kind {
 		case PField:
 			fi := x.fieldByIndex(p.Owner, p.Field)
-			x.lockCheck(st, p.OwnS, fi.Name, false, site)
+			x.lockCheckObj(st, p.OwnS, fi.Name, p.Obj, false, site)
 			return x.loadField(st, p.Owner, fi, p.Obj)
 		case PCell:
 			v, ok := st.Cells[p.Glob]
@@ -272,7 +272,7 @@ func (x *Exec) store(fr *Frame, st *State, addr Val, v Val, ins ssa.Instruction)
 		case PField:
 			x.nilCheck(st, p.Obj, site, "store to field of nil")
 			fi := x.fieldByIndex(p.Owner, p.Field)
-			x.lockCheck(st, p.OwnS, fi.Name, true, site)
+			x.lockCheckObj(st, p.OwnS, fi.Name, p.Obj, true, site)
 			x.storeField(st, p.Owner, fi, p.Obj, v)
 		case PCell:
 			st.Cells[p.Glob] = v
